@@ -1069,11 +1069,12 @@ func (c *Conn) readTopicMetadatav1(brokers map[int32]Broker, topicMetadata []top
 		for _, p := range t.Partitions {
 			partitions = append(partitions, Partition{
 				Topic:           t.TopicName,
-				Leader:          brokers[p.Leader],
+				Leader:          makeBrokers(brokers, p.Leader)[0],
 				Replicas:        makeBrokers(brokers, p.Replicas...),
 				Isr:             makeBrokers(brokers, p.Isr...),
 				ID:              int(p.PartitionID),
 				OfflineReplicas: []Broker{},
+				Error:           makeError(p.PartitionErrorCode, ""),
 			})
 		}
 	}
@@ -1091,11 +1092,12 @@ func (c *Conn) readTopicMetadatav6(brokers map[int32]Broker, topicMetadata []top
 		for _, p := range t.Partitions {
 			partitions = append(partitions, Partition{
 				Topic:           t.TopicName,
-				Leader:          brokers[p.Leader],
+				Leader:          makeBrokers(brokers, p.Leader)[0],
 				Replicas:        makeBrokers(brokers, p.Replicas...),
 				Isr:             makeBrokers(brokers, p.Isr...),
 				ID:              int(p.PartitionID),
 				OfflineReplicas: makeBrokers(brokers, p.OfflineReplicas...),
+				Error:           makeError(p.PartitionErrorCode, ""),
 			})
 		}
 	}
